@@ -441,3 +441,62 @@ Definition run_case (t : tree) : tree :=
     end
   | _ => err (-2)
   end.
+
+(* ------------------------------------------------------------------ part 5: specification predicates
+   (definitions only; used by the statements in Property.v) *)
+
+(* [Derivable own links c n]: attribute c can be computed from the own attributes by a tree of links of height <= n *)
+Inductive Derivable (own : list cid) (links : list link) : cid -> nat -> Prop :=
+| D_own : forall c n, In c own -> Derivable own links c n
+| D_link : forall l n, In l links ->
+           (forall f, In f (l_from l) -> Derivable own links f n) ->
+           Derivable own links (l_to l) (S n).
+
+(* the same tree carrying the value it computes; vf gives the value used for each input attribute *)
+Inductive DerivVal (own : list cid) (links : list link) (env : cid -> Z) : cid -> nat -> Z -> Prop :=
+| DV_own : forall c n, In c own -> DerivVal own links env c n (env c)
+| DV_link : forall l n (vf : cid -> Z), In l links ->
+            (forall f, In f (l_from l) -> DerivVal own links env f n (vf f)) ->
+            DerivVal own links env (l_to l) (S n) (apply_fn (l_fn l) (map vf (l_from l))).
+
+(* manager: well-formed states, valid histories, freshness *)
+Definition ds_wf (d : dataset) : Prop :=
+  (forall c, In c (d_own d) -> fst c = d_id d) /\
+  incl (d_coord d) (d_own d) /\
+  (forall l, In l (d_int d) -> l_from l <> [] /\ incl (l_from l) (d_coord d) /\ In (l_to l) (d_coord d)) /\
+  (d_member d = true -> d_hub d = true).
+
+(* c is an attribute of a dataset that is in the collection *)
+Definition live (s : state) (c : cid) : Prop :=
+  exists d, In d (s_data s) /\ d_member d = true /\ In c (d_own d).
+
+Definition link_cids (l : link) : list cid := l_to l :: l_from l.
+
+Definition entry_live (s : state) (e : entry) : Prop :=
+  forall p c, In p (e_links e) -> In c (link_cids (fst p)) -> live s c.
+
+Definition wf (s : state) : Prop :=
+  NoDup (map d_id (s_data s)) /\
+  (forall d, In d (s_data s) -> ds_wf d) /\
+  (forall e, In e (s_ext s) -> entry_live s e) /\
+  s_err s = false.
+
+(* every dataset of the collection holds exactly the table discover computes from the links in force now *)
+Definition fresh (s : state) : Prop :=
+  forall d, In d (s_data s) -> d_member d = true -> discover (d_own d) (all_links s) = Some (d_tbl d).
+
+(* what a history may do: links are added over live attributes; coordinate components are not removed one by
+   one; set_links is not given the same collection twice (the code raises half-way there) *)
+Definition valid_op (s : state) (o : op) : Prop :=
+  match o with
+  | AddLink e => entry_live s e
+  | SetLinks es => (forall e, In e es -> entry_live s e) /\ snd (add_all es []) = 0
+  | RemoveComponent i c => forall d, find_ds i (s_data s) = Some d -> ~ In c (d_coord d)
+  | _ => True
+  end.
+
+Fixpoint valid_history (s : state) (ops : list op) : Prop :=
+  match ops with
+  | [] => True
+  | o :: r => valid_op s o /\ valid_history (fst (step s o)) r
+  end.
